@@ -87,7 +87,7 @@ ASSUMPTIONS = [
     "histories also use pmfs that FixedLearner's own precondition accepts (entries in [0,1], |sum-1| <= 4e-4): there the scores "
     "must sum to 1 within 1e-3 only, everything else (action offered, probability > 0, probability == score) is asserted as usual",
     "action sets hold no duplicates (incl. 1 vs 1.0 and list [1,0] vs tuple (1,0)); logged actions are members of the offered set; "
-    "logged probabilities lie in [1e-6, 1]; the action handed to score / a logged learn is an offered object or == to one (an equal object of the "
+    "logged probabilities lie in [1e-6, 1], and in Corral histories of the class xprop in [1e-30, 1e-9] (importance weights up to 1e30; open finding); the action handed to score / a logged learn is an offered object or == to one (an equal object of the "
     "same type); dense / sparse actions hold hashable values (numbers, strings)",
     "adversarial seeds: the generator state is read from the frame of the real generator (reach accounting and the /uniform= "
     "suffix of a signature only; no verdict depends on it); Corral seeds are 52-bit integers (any int is a legal seed)",
@@ -430,6 +430,9 @@ def _gen_history(rng, learner, akind, dyn, n0, length=None):
     rpat   = rng.choice(REWARDS)
     logm   = rng.choice(LOGGING)
     best   = rng.randrange(U)
+    # a class of its own (decided by a generator derived from the case so that the other histories stay what they were)
+    import random as _r
+    xprop  = logm != "on-policy" and has_kind(learner, "corral") and _r.Random(f"xprop/{akind}/{dyn}/{n0}/{length}/{rpat}/{learner!r}").random() < .12
 
     if dyn == "single": cur = [rng.randrange(U)]
     elif dyn == "grow" and not const_size:   cur = rng.sample(range(U), rng.randint(1, 2))
@@ -461,11 +464,13 @@ def _gen_history(rng, learner, akind, dyn, n0, length=None):
         log = None
         if logm == "all-logged" or (logm == "mixed" and rng.random() < .3):
             lp = rng.choice([1.0, .5, 1/len(A), 1/len(A), .1, .01, 1e-3]) if rng.random() < .97 else 1e-6
+            # extreme propensities (a logging policy that almost never took the action): importance weights of 1e9 .. 1e30
+            if xprop and rng.random() < .5: lp = rng.choice([1e-9, 1e-11, 1e-12, 1e-14, 1e-16, 1e-18, 1e-30])
             log = [rng.randrange(len(A)), lp]
         x = rng.choice([None, None, 1, "c", [1, 2], {"x": 1}])
         rounds.append({"x": x, "A": A, "r": rs, "log": log})
     return {"learner": learner, "universe": universe, "rounds": rounds,
-            "meta": {"akind": akind, "dyn": dyn, "rpat": rpat, "logm": logm}}
+            "meta": {"akind": akind, "dyn": dyn, "rpat": rpat, "logm": logm, **({"xprop": True} if xprop else {})}}
 
 # ------------------------------------------------------------------------------------------ adversarial seeds
 LCG_A, LCG_C, LCG_M = 116646453, 9, 2**30          # coba.random.CobaRandom: s <- (A*s + C) mod M, uniform = s/M
@@ -684,6 +689,8 @@ def check_case(spec, ctx=None, upto=None):
     flags   = ""
     if core["k"] == "corral":
         flags = "/eta>=10" if core["eta"] >= 10 else "/eta<=1"
+        if spec.get("meta", {}).get("xprop"):
+            flags += "/logged-propensities<=1e-9"; note("oracle.histories.corral.extreme-propensities")
     universe = [decode_action(e) for e in spec["universe"]]
     uindex   = {id(o): i for i, o in enumerate(universe)}                        # (the universe keeps every object alive)
     uhash    = [action_hash(e) for e in spec["universe"]]
@@ -724,7 +731,9 @@ def check_case(spec, ctx=None, upto=None):
     shst   = {"edited": False, "unseen": None}       # unseen: the list holds new content that no call has seen yet
 
     def fail(sig, what):
-        if akind in NEW_AKINDS: sig += "/actions:" + NEW_AKINDS[akind]
+        # the numerical break-down of Corral's root search under extreme importance weights does not hinge on the kind of actions
+        if "/logged-propensities<=1e-9" in sig and "@_log_barrier_omd" in sig or "ZeroDivisionError:zero-division@corral.py" in sig and "/logged-propensities<=1e-9" in sig: pass
+        elif akind in NEW_AKINDS: sig += "/actions:" + NEW_AKINDS[akind]
         elif equal_hashes(step.get("A") or ()): sig += "/actions:offered-set-holds-different-actions-with-equal-hashes"
         if share and shst["edited"]:
             sig += "/actions-list-edited-in-place"
@@ -905,7 +914,7 @@ def _alarm(signum, frame): raise WallClock()
 
 def case_key(spec):
     m = spec["meta"]
-    return (learner_sig(spec["learner"]), m["akind"], m["dyn"], m["rpat"], m["logm"], tuple(m.get("adv", ())), tuple(m.get("share", ())))
+    return (learner_sig(spec["learner"]), m["akind"], m["dyn"], m["rpat"], m["logm"] + ("+xprop" if m.get("xprop") else ""), tuple(m.get("adv", ())), tuple(m.get("share", ())))
 
 def run_shard(ctx):
     _install()
